@@ -283,6 +283,21 @@ def run(ck, tier):
         v = st.heap.get('self.transaction')
         if socket is not None and isinstance(v, ast.Call):
             sel.setdefault(socket, set()).add(U(v.func))
+        elif socket is None and isinstance(v, ast.Call) and isinstance(v.func, ast.Call) and isinstance(v.func.func, ast.Attribute) \
+                and isinstance(v.func.func.value, ast.Name) and v.func.func.value.id in ('self', cls.name):
+            # the manager class is chosen by a private helper: its paths give the same table (framer test -> class returned)
+            h = cx.idx.find_method(cls, v.func.func.attr)
+            if h is not None:
+                for hp in cx.enum(h, cls, max_depth=0):
+                    annotate(hp, heap=False)
+                    pol = None
+                    for e in hp.ev:
+                        if e.kind == 'cond' and isinstance(e._sub, ast.Call) and callee_name(e._sub) == 'isinstance' and len(e._sub.args) == 2 \
+                                and U(e._sub.args[1]) == 'ModbusSocketFramer':
+                            pol = e.a
+                    r = ret_expr(hp)
+                    if pol is not None and isinstance(r, ast.Name):
+                        sel.setdefault(pol, set()).add(r.id)
     txt = {k: sorted(v) for k, v in sel.items()}
     ck.ob('R7', init.qn, 'socket framer -> dictionary manager, other framers -> FIFO manager',
           txt == {True: ['DictTransactionManager'], False: ['FifoTransactionManager']},
